@@ -436,6 +436,35 @@ Fixpoint type_features (S : schema) (t : gqltype) : list string :=
   | TNonNull t' => type_features S t'
   end.
 
+(** wrappers of the types of the selected fields *)
+Fixpoint list_depth (t : gqltype) : nat :=
+  match t with TNamed _ => O | TList t' => Datatypes.S (list_depth t') | TNonNull t' => list_depth t' end.
+Fixpoint has_nullable_item (t : gqltype) (in_list : bool) (nn : bool) : bool :=
+  match t with
+  | TNamed _ => in_list && negb nn
+  | TNonNull t' => has_nullable_item t' in_list true
+  | TList t' => has_nullable_item t' true false
+  end.
+Definition wrap_features (S : schema) (ft : gqltype) : list string :=
+  ((match ft with TNonNull _ => ["non-null-field"] | _ => ["nullable-field"] end) ++
+   (if Nat.leb 2 (list_depth ft) then ["list-of-list"] else []) ++
+   (if has_nullable_item ft false false then ["nullable-list-item"] else []) ++
+   type_features S ft)%list.
+Fixpoint selected_type_features (S : schema) (fuel : nat) (t : name) (sels : list selection) : list string :=
+  match fuel with
+  | O => []
+  | Datatypes.S f =>
+      flat_map (fun s => match s with
+                         | SField _ fn sub =>
+                             match field_type S t fn with
+                             | Some ft => (wrap_features S ft ++ selected_type_features S f (unwrap ft) sub)%list
+                             | None => []
+                             end
+                         | SInline c sub => selected_type_features S f (inline_cond t c) sub
+                         | SSpread _ c body => selected_type_features S f c body
+                         end) sels
+  end.
+
 Definition union_cond (S : schema) (sels : list selection) : bool :=
   (fix go (fuel : nat) (sels : list selection) : bool :=
      match fuel with
@@ -553,6 +582,7 @@ Definition check (c : sexp) : sexp :=
               let d := match link_doc d0 with Some d' => d' | None => d0 end in
               let is_linked := match link_doc d0 with Some _ => true | None => false end in
               if valid && negb is_linked then v_bad "valid-document-does-not-link"
+              else if valid && decl_safe Sch d && excl_decl_clash Sch d then v_bad "decl-safe-does-not-exclude-clash"
               else
               let m := generate no_quirks Sch valid d in
               let in_env := valid && env Sch d in
@@ -593,7 +623,7 @@ Definition check (c : sexp) : sexp :=
                                       let feats := dedup_str
                                         (flat_map (fun o => flat_map sel_features (op_sels o)) (d_ops d) ++
                                          flat_map (fun o => match root_type Sch o with
-                                                            | Some r => []
+                                                            | Some r => selected_type_features Sch (Datatypes.S (sels_size (op_sels o))) r (op_sels o)
                                                             | None => []
                                                             end) (d_ops d)) in
                                       let exp_frag :=
@@ -611,6 +641,7 @@ Definition check (c : sexp) : sexp :=
                                         end in
                                       v_ok (["valid"; "generated"] ++
                                             (if in_env then ["in-envelope"] else ["outside-envelope"]) ++
+                                            (if decl_safe Sch d then ["decl-safe"] else ["decl-unsafe-by-names"]) ++
                                             (if cb then ["compiles"] else ["does-not-compile"]) ++
                                             (if cb && negb (order_free d) then ["decode-not-compared-field-order-dependent"] else []) ++
                                             (if shape_same then ["shape-same"] else ["shape-differs"]) ++
